@@ -9,7 +9,7 @@
    "low-order polynomial" of the property as far as loop iterations go.
 
    PARTIAL by nature: the theorems bound loop iterations of the model.  Wall-clock / CPU time of the implementation is
-   measured by the deadline oracle of harness/props/C15.py (13 shapes x sizes n,2n,4n x 7 operations), not proved.
+   measured by the deadline oracle of harness/props/C15.py (14 shapes x sizes n,2n,4n x 8 operations), not proved.
 
    No theorem is stated (none would say anything) for:
    - hierarchy queries (subsumes, is_instance_of, is_primitive, descendants): in Schema.v the ancestor chain of every
@@ -19,7 +19,7 @@
    - readers and writers, typecheck, select: in the models they are structural folds (map / fold_left / filter) over
      the document or over the id-sorted list returned by find_all_fs, so Coq's guard condition is their termination
      proof; there is nothing further to state. *)
-From Cassis Require Import Base Heap Schema Reach ReachProofs RefutedC15.
+From Cassis Require Import Base Heap Schema Reach ReachProofs ReachSpec RefutedC15.
 Open Scope Z_scope.
 
 (* the worklist: never out of fuel with |heap|+1, whatever the graph *)
@@ -60,6 +60,14 @@ Theorem C15_result_exact : forall inl s c seeds w, find_all_from inl s c seeds =
   forall o, In o (returned w) <-> (reach inl s (c_heap c) seeds o /\ ~ null_in (c_heap c) o).
 Proof. exact find_all_exact. Qed.
 Print Assumptions C15_result_exact.
+
+(* `reach` steps along Reach.succs; succs is exactly the inductively defined successor relation of ReachSpec.v (references,
+   TOP-ranged features, list head/tail, FSArray elements, members of inlined FSArrays, heads of ALL nodes on the tail chain
+   of an inlined FSList — also when that chain is cyclic) *)
+Theorem C15_successors_declarative : forall inl s h o f l, hget h o = Some f -> obj_cands inl s h f = Ok l ->
+  forall x, In x (refs_of l) <-> succ_rel inl s h o x.
+Proof. exact succs_declarative. Qed.
+Print Assumptions C15_successors_declarative.
 
 Theorem C15_result_each_once : forall inl s c seeds w, find_all_from inl s c seeds = Ok w ->
   NoDup (map fst (w_all w)) /\ NoDup (returned w).
